@@ -1,6 +1,107 @@
-import Garnish.Driver.Proto
+/- PROG suite: the reference evaluator `evalF` on the generator's AST (the oracle side of C01/C06/C10/C17) -/
+import Garnish.Spec.Eval
+import Garnish.Driver.OpDrv
 namespace Garnish.Driver
+open Garnish Gen Garnish.Abs Garnish.Spec
+
+abbrev E := Expr Float
+
+mutual
+def exprOfTerm : Term → Option E
+  | .atom "in" => some .input
+  | .atom "enested" => some .emptyNested
+  | .atom _ => none
+  | .node [.atom "lit", v] => (valOfTerm v).map .lit
+  | .node [.atom "id", .atom s] => s.toNat?.map .ident
+  | .node [.atom "un", .atom op, e] => match Instruction.ofName? op, exprOfTerm e with
+    | some o, some x => some (.unary o x) | _, _ => none
+  | .node [.atom "bin", .atom op, l, r] => match Instruction.ofName? op, exprOfTerm l, exprOfTerm r with
+    | some o, some a, some b => some (.binary o a b) | _, _, _ => none
+  | .node [.atom "pair", l, r] => match exprOfTerm l, exprOfTerm r with
+    | some a, some b => some (.pair a b) | _, _ => none
+  | .node [.atom "applyto", x, f] => match exprOfTerm x, exprOfTerm f with
+    | some a, some b => some (.applyTo a b) | _, _ => none
+  | .node (.atom "list" :: items) => (exprsOfTerms items).map .list
+  | .node [.atom "cond", .atom k, c, t] => match exprOfTerm c, exprOfTerm t with
+    | some a, some b => some (.cond (k == "T") a b) | _, _ => none
+  | .node (.atom "chain" :: rest) => chainOfTerms rest []
+  | .node [.atom "and", l, r] => match exprOfTerm l, exprOfTerm r with
+    | some a, some b => some (.and a b) | _, _ => none
+  | .node [.atom "or", l, r] => match exprOfTerm l, exprOfTerm r with
+    | some a, some b => some (.or a b) | _, _ => none
+  | .node [.atom "seq", l, r] => match exprOfTerm l, exprOfTerm r with
+    | some a, some b => some (.seq a b) | _, _ => none
+  | .node [.atom "seafter", e, b] => match exprOfTerm e, exprOfTerm b with
+    | some a, some c => some (.sideAfter a c) | _, _ => none
+  | .node [.atom "nested", .atom k] => k.toNat?.map .nested
+  | .node [.atom "reapply", e] => (exprOfTerm e).map .reapply
+  | .node [.atom "prefix", .atom s, x] => match s.toNat?, exprOfTerm x with
+    | some sy, some a => some (.prefixApply sy a) | _, _ => none
+  | .node [.atom "suffix", x, .atom s] => match s.toNat?, exprOfTerm x with
+    | some sy, some a => some (.suffixApply a sy) | _, _ => none
+  | .node [.atom "infix", a, .atom s, b] => match s.toNat?, exprOfTerm a, exprOfTerm b with
+    | some sy, some x, some y => some (.infixApply x sy y) | _, _, _ => none
+  | .node _ => none
+def exprsOfTerms : List Term → Option (List E)
+  | [] => some []
+  | t :: ts => match exprOfTerm t, exprsOfTerms ts with
+    | some e, some es => some (e :: es)
+    | _, _ => none
+def chainOfTerms : List Term → List (Bool × E × E) → Option E
+  | [], acc => some (.chain acc.reverse none)
+  | [.node [.atom "else", e]], acc => (exprOfTerm e).map (fun x => .chain acc.reverse (some x))
+  | .node [.atom "arm", .atom k, c, t] :: rest, acc => match exprOfTerm c, exprOfTerm t with
+    | some a, some b => chainOfTerms rest ((k == "T", a, b) :: acc)
+    | _, _ => none
+  | _ :: _, _ => none
+end
+
+def programOfTerm : Term → Option (Program Float)
+  | .node (.atom "prog" :: main :: bodies) =>
+    match exprOfTerm main with
+    | none => none
+    | some m =>
+      let bs := bodies.foldr (fun t acc => match t, acc with
+        | .node [.atom "body", .atom k, e], some xs => match k.toNat?, exprOfTerm e with
+          | some i, some x => some ((i, x) :: xs)
+          | _, _ => none
+        | _, _ => none) (some [])
+      bs.map (fun b => { main := m, bodies := (0, m) :: b })
+  | _ => none
+
+/-- host spec: `-` | `d<0|1>a<0|1>`; resolve table as a separate field `r:<sym>=<int>,…` -/
+def parseResolve (s : String) : List (Nat × Int) :=
+  if !s.startsWith "r:" then [] else
+  ((s.drop 2).toString.splitOn ",").filterMap (fun kv => match kv.splitOn "=" with
+    | [k, v] => match k.toNat?, v.toInt? with
+      | some a, some b => some (a, b)
+      | _, _ => none
+    | _ => none)
+
+def progHost (spec : String) (res : List (Nat × Int)) (simple : Bool) : Host Float :=
+  if spec == "-" then Host.declining else
+  let cs := spec.toList
+  let deferAccept := cs.getD 1 '0' == '1'
+  let applyAccept := cs.getD 3 '0' == '1'
+  { defer := fun _ _ _ => if deferAccept then some (.num (.int 777)) else none,
+    resolve := fun s => (res.find? (fun p => p.1 == s)).map (fun p => .num (.int p.2)),
+    apply := fun _ _ => if applyAccept && !simple then some (.num (.int 888)) else none }
+
+def progCase (f : List String) : String :=
+  match f with
+  | _ :: _ :: store :: _src :: input :: hostSpec :: ast :: rest =>
+    let res := parseResolve (rest.headD "")
+    match (Term.parse ast).bind programOfTerm, (if input == "-" then some Val.unit else parseVal input) with
+    | some p, some inp =>
+      let host := progHost hostSpec res (store == "simple")
+      match evalProgram hwFloatOps host 100000 p inp with
+      | .ok (v, st) => s!"ok {showVal v} log={showTrace (hostSpec == "-") (store == "simple") st.trace}"
+      | .err e => "err " ++ errName e
+      | .fuelOut => "fuelout"
+    | _, _ => "BAD-CASE ast"
+  | _ => "BAD-CASE fields"
+
 def runCase (_f : List String) : String := "UNIMPLEMENTED"
-def progCase (_f : List String) : String := "UNIMPLEMENTED"
 def multiCase (_f : List String) : String := "UNIMPLEMENTED"
+
 end Garnish.Driver
